@@ -22,6 +22,7 @@ func init() {
 	reg("C16", "C16.R6", "E6", "rule key prefixes are distinct: position for configured rules, their count for the default rule", 2, ruleRuleKeysDistinct)
 	reg("C16", "C16.R4", "E1", "a ring of reference rows is only rotated: rows never duplicated, copied over or handed out", 1, ruleRingRows)
 	reg("C16", "C16.R7", "E6", "the shares of a limit distribution are computed from the limit they are attached to", 2, ruleSharesOfOwnLimit)
+	reg("C16", "C16.R8", "E2", "a limiter handed out from the map has its generation refreshed (expiry is by last use, not by creation)", 1, ruleLimiterLastUse)
 }
 
 func isRedisFn(fn *ssa.Function) bool {
@@ -842,4 +843,66 @@ func ruleSharesOfOwnLimit(c *Ctx, r *Rule) {
 			"the shares of a limit distribution are computed from the limit they are attached to (limit "+c.path(stripConv(p.value))+", shares computed from "+c.path(stripConv(total))+")")
 	}
 	r.Ob(n >= 2, "throttle|limit-with-distribution", token.NoPos, fmt.Sprintf("%d places where a limit and its distribution are put together", n))
+}
+
+// ruleLimiterLastUse: limiters are expired by generation: maintenance deletes a limiter whose generation
+// is older than the expiration. The generation must therefore record the LAST USE: every return of
+// getOrAdd that hands out a limiter found in the map passes a store of the current generation into
+// it (a limiter whose generation is only its creation time is deleted while its key is active, and
+// the key then gets a fresh limiter with empty buckets: limit more events pass in a bucket already used).
+func ruleLimiterLastUse(c *Ctx, r *Rule) {
+	goa := c.Method("plugin/action/throttle", "limitersMap", "getOrAdd")
+	if goa == nil {
+		r.Unresolved("limitersMap.getOrAdd")
+		return
+	}
+	const thrPkg = modulePath + "/plugin/action/throttle"
+	isGenStore := func(in ssa.Instruction) bool {
+		ci, ok := in.(ssa.CallInstruction)
+		if !ok {
+			return false
+		}
+		f := calleeFunc(ci)
+		if f == nil || f.Name() != "Store" || len(ci.Common().Args) < 2 {
+			return false
+		}
+		_, fl, _, okf := fieldOf(ci.Common().Args[0])
+		if !okf {
+			_, fl, _, okf = loadedField(stripConv(ci.Common().Args[0]))
+		}
+		return okf && fl == "gen" && isLoadOfField(stripConv(ci.Common().Args[1]), thrPkg, "limitersMap", "curGen")
+	}
+	n := 0
+	for _, b := range goa.Blocks {
+		for _, in := range b.Instrs {
+			lk, ok := in.(*ssa.Lookup)
+			if !ok || !lk.CommaOk || !isLoadOfField(stripConv(lk.X), thrPkg, "limitersMap", "lims") {
+				continue
+			}
+			n++
+			r.Inst(1)
+			// returns reached with this lookup's found flag true
+			bad := token.NoPos
+			for _, ret := range returnsOf(goa) {
+				found := false
+				for _, l := range c.unitGuards(ret) {
+					if e, isE := l.v.(*ssa.Extract); isE && e.Tuple == ssa.Value(lk) && e.Index == 1 && l.pol {
+						found = true
+					}
+				}
+				if !found {
+					continue
+				}
+				if miss, _ := c.pathExists(goa, lk, func(x ssa.Instruction) bool { return x == ssa.Instruction(ret) }, isGenStore); miss {
+					bad = ret.Pos()
+				}
+			}
+			pos := lk.Pos()
+			if bad != token.NoPos {
+				pos = bad
+			}
+			r.Ob(bad == token.NoPos, fmt.Sprintf("%s|lookup#%d|found-limiter-refreshed", c.fnName(goa), n), pos, "a limiter found in the map has its generation set to the current one before it is handed out (the generation records the last use; maintenance expires by it)")
+		}
+	}
+	r.Ob(n >= 1, c.fnName(goa)+"|lookups", goa.Pos(), fmt.Sprintf("%d look-ups of the limiter map examined", n))
 }
